@@ -545,7 +545,8 @@ func c06ModelCase(c *mon.Case, refc, withDelay bool) {
 func c06GatedTimerCase(c *mon.Case) {
 	r := c.Rng
 	refc := r.IntN(2) == 0
-	w := newC06World(c, refc, 2*time.Millisecond, func(string, int) int { return 0 })
+	const gatedDelay = 20 * time.Millisecond
+	w := newC06World(c, refc, gatedDelay, func(string, int) int { return 0 })
 	ctx, cancel := context.WithCancel(context.Background())
 	defer cancel()
 	var ref *keyed.KeyedRef[string, int]
@@ -588,11 +589,43 @@ func c06GatedTimerCase(c *mon.Case) {
 		w.k.SyncKeys([]string{"a"}, false)
 	}
 	c.Rec("driver", "re-requested by "+how+" while the removal-timer callback is parked before the mutex", nil)
+	// variant: the key is removed again right away; the parked callback of the FIRST removal must not
+	// carry out the second one early (the key stays until the fresh delay expires)
+	reRemove := r.IntN(2) == 0
+	var tb2 time.Time
+	if reRemove {
+		tb2 = time.Now()
+		if refc {
+			// drop every live reference again
+			w.rc.RemoveKey("a")
+			how += " + RemoveKey"
+		} else {
+			w.k.RemoveKey("a")
+			how += " + RemoveKey"
+		}
+	}
 	g.Release()
+	if reRemove {
+		// let the released callback run, then look while the fresh delay surely has not expired
+		runtime.Gosched()
+		mon.Quiesce(time.Second)
+		_, present := w.getKey("a")
+		if time.Since(tb2) < gatedDelay/2 {
+			c.Count("gated_removal_timer_templates", 1)
+			c.NonTrivial()
+			c.Mix(mon.HashBytes([]byte(how)))
+			if !present {
+				c.Violate("model", "key-removed-before-fresh-delay", "the key was re-requested (%s) and removed again while the callback of the FIRST removal timer was parked; after that callback ran the key is gone %v after the second RemoveKey although the release delay is %v", how, time.Since(tb2), gatedDelay)
+			}
+		} else {
+			c.Inconclusive("too slow to judge the fresh delay")
+		}
+		return
+	}
 	c.Count("gated_removal_timer_templates", 1)
 	c.NonTrivial()
 	c.Mix(mon.HashBytes([]byte(how)))
-	if !mon.SettleTimers(2*time.Millisecond, 10, 20*time.Millisecond, 5*time.Second) || g.TimedOut.Load() {
+	if !mon.SettleTimers(gatedDelay, 3, 3*gatedDelay, 5*time.Second) || g.TimedOut.Load() {
 		c.Inconclusive("no quiescence")
 		return
 	}
